@@ -7,6 +7,7 @@ CONSTANTS
   MaxClients0 = 2
   ServerAddrs = 1
   TokenSingleUse = TRUE
+  TokenTable = 2048
   MaxSteps = 7
   Addrs = {1, 2}
   Dts = {250, 1000}
